@@ -3,6 +3,8 @@ From Coq Require Import List ZArith NArith Bool Lia Arith.
 From V Require Import Sched.Lts.
 Import ListNotations.
 
+Ltac inv H := inversion H; subst; clear H.
+
 (* ------------------------------------------------------------------ upd / nth_error *)
 
 Lemma upd_length {A} (l : list A) i x : length (upd l i x) = length l.
@@ -102,9 +104,129 @@ Qed.
 Lemma remove_key_length l m : length (remove_key l m) <= length l.
 Proof. induction l as [|[k v] tl IH]; simpl; auto. destruct (Nat.eqb k m); simpl; lia. Qed.
 
-(* ------------------------------------------------------------------ case analysis *)
+(* ------------------------------------------------------------------ sums over lists, lookups with default *)
 
-Ltac inv H := inversion H; subst; clear H.
+Fixpoint cnt {A} (f : A -> nat) (l : list A) : nat :=
+  match l with [] => 0 | x :: tl => f x + cnt f tl end.
+
+Lemma cnt_app {A} (f : A -> nat) a b : cnt f (a ++ b) = cnt f a + cnt f b.
+Proof. induction a as [|x tl IH]; simpl; auto. rewrite IH. lia. Qed.
+
+Lemma cnt_snoc {A} (f : A -> nat) l x : cnt f (l ++ [x]) = cnt f l + f x.
+Proof. rewrite cnt_app. simpl. lia. Qed.
+
+Lemma cnt_ge {A} (f : A -> nat) l i x : nth_error l i = Some x -> f x <= cnt f l.
+Proof. revert i; induction l as [|h tl IH]; intros [|i] H; simpl in *; try discriminate. inv H. lia. apply IH in H. lia. Qed.
+
+Lemma cnt_upd {A} (f : A -> nat) l i x y : nth_error l i = Some x -> cnt f (upd l i y) + f x = cnt f l + f y.
+Proof.
+  revert i; induction l as [|h tl IH]; intros [|i] H; simpl in *; try discriminate.
+  - inv H. lia.
+  - apply IH in H. lia.
+Qed.
+
+Lemma cnt_upd_eq {A} (f : A -> nat) l i x y : nth_error l i = Some x -> cnt f (upd l i y) = cnt f l + f y - f x.
+Proof. intros H. pose proof (cnt_upd f l i x y H). lia. Qed.
+
+Lemma cnt_map {A B} (f : B -> nat) (g : A -> B) l : cnt f (map g l) = cnt (fun x => f (g x)) l.
+Proof. induction l as [|x tl IH]; simpl; auto. Qed.
+
+Lemma cnt_ext {A} (f g : A -> nat) l : (forall x, f x = g x) -> cnt f l = cnt g l.
+Proof. intros E. induction l as [|x tl IH]; simpl; auto. Qed.
+
+Lemma cnt_zero {A} (f : A -> nat) l : (forall x, In x l -> f x = 0) -> cnt f l = 0.
+Proof. induction l as [|x tl IH]; simpl; intros H; auto. rewrite (H x), IH; auto. Qed.
+
+Lemma cnt_pos_In {A} (f : A -> nat) l : 0 < cnt f l -> exists x, In x l /\ 0 < f x.
+Proof.
+  induction l as [|x tl IH]; simpl; intros H; [lia|].
+  destruct (f x) eqn:E.
+  - destruct IH as (y & Hy & Py); [lia|]. exists y; auto.
+  - exists x; split; auto; lia.
+Qed.
+
+Definition getd {A} (f : A -> nat) (l : list A) (i : nat) : nat :=
+  match nth_error l i with Some x => f x | None => 0 end.
+
+Lemma getd_upd_same {A} (f : A -> nat) l i x y j :
+  nth_error l i = Some x -> f y = f x -> getd f (upd l i y) j = getd f l j.
+Proof.
+  intros E C. unfold getd. destruct (Nat.eq_dec i j) as [->|N].
+  - rewrite (nth_error_upd_eq _ _ _ _ E), E. exact C.
+  - rewrite nth_error_upd_neq; auto.
+Qed.
+
+Lemma getd_upd {A} (f : A -> nat) l i x y j :
+  nth_error l i = Some x -> getd f (upd l i y) j = if Nat.eqb i j then f y else getd f l j.
+Proof.
+  intros E. unfold getd. destruct (Nat.eqb i j) eqn:Q.
+  - apply Nat.eqb_eq in Q; subst. rewrite (nth_error_upd_eq _ _ _ _ E). reflexivity.
+  - apply Nat.eqb_neq in Q. rewrite nth_error_upd_neq; auto.
+Qed.
+
+Lemma getd_snoc {A} (f : A -> nat) l y j :
+  getd f (l ++ [y]) j = if Nat.eqb j (length l) then f y else getd f l j.
+Proof.
+  unfold getd. destruct (Nat.eqb j (length l)) eqn:Q.
+  - apply Nat.eqb_eq in Q; subst. rewrite nth_error_snoc_new. reflexivity.
+  - apply Nat.eqb_neq in Q. destruct (Nat.lt_ge_cases j (length l)).
+    + rewrite nth_error_app1; auto.
+    + assert (N1 : nth_error (l ++ [y]) j = None) by (apply nth_error_None; rewrite app_length; simpl; lia).
+      assert (N2 : nth_error l j = None) by (apply nth_error_None; lia). rewrite N1, N2. reflexivity.
+Qed.
+
+Lemma getd_none {A} (f : A -> nat) l j : length l <= j -> getd f l j = 0.
+Proof. intros H. unfold getd. assert (N : nth_error l j = None) by (apply nth_error_None; lia). rewrite N. reflexivity. Qed.
+
+Definition getf {A B} (f : A -> B) (d : B) (l : list A) (i : nat) : B :=
+  match nth_error l i with Some x => f x | None => d end.
+
+Lemma getf_upd_same {A B} (f : A -> B) d l i x y j :
+  nth_error l i = Some x -> f y = f x -> getf f d (upd l i y) j = getf f d l j.
+Proof.
+  intros E C. unfold getf. destruct (Nat.eq_dec i j) as [->|N].
+  - rewrite (nth_error_upd_eq _ _ _ _ E), E. exact C.
+  - rewrite nth_error_upd_neq; auto.
+Qed.
+
+Lemma getf_upd {A B} (f : A -> B) d l i x y j :
+  nth_error l i = Some x -> getf f d (upd l i y) j = if Nat.eqb i j then f y else getf f d l j.
+Proof.
+  intros E. unfold getf. destruct (Nat.eqb i j) eqn:Q.
+  - apply Nat.eqb_eq in Q; subst. rewrite (nth_error_upd_eq _ _ _ _ E). reflexivity.
+  - apply Nat.eqb_neq in Q. rewrite nth_error_upd_neq; auto.
+Qed.
+
+Lemma getf_snoc {A B} (f : A -> B) d l y j :
+  getf f d (l ++ [y]) j = if Nat.eqb j (length l) then f y else getf f d l j.
+Proof.
+  unfold getf. destruct (Nat.eqb j (length l)) eqn:Q.
+  - apply Nat.eqb_eq in Q; subst. rewrite nth_error_snoc_new. reflexivity.
+  - apply Nat.eqb_neq in Q. destruct (Nat.lt_ge_cases j (length l)).
+    + rewrite nth_error_app1; auto.
+    + assert (N1 : nth_error (l ++ [y]) j = None) by (apply nth_error_None; rewrite app_length; simpl; lia).
+      assert (N2 : nth_error l j = None) by (apply nth_error_None; lia). rewrite N1, N2. reflexivity.
+Qed.
+
+Lemma getf_some {A B} (f : A -> B) d l i x : nth_error l i = Some x -> getf f d l i = f x.
+Proof. intros E. unfold getf. rewrite E. reflexivity. Qed.
+
+Lemma getf_none {A B} (f : A -> B) d l i : length l <= i -> getf f d l i = d.
+Proof. intros H. unfold getf. assert (N : nth_error l i = None) by (apply nth_error_None; lia). rewrite N. reflexivity. Qed.
+
+(* two different positions of a list contribute separately to a sum *)
+Lemma cnt_two {A} (f : A -> nat) l i j x y :
+  i <> j -> nth_error l i = Some x -> nth_error l j = Some y -> f x + f y <= cnt f l.
+Proof.
+  revert i j; induction l as [|h tl IH]; intros [|i] [|j] N Hi Hj; simpl in *; try discriminate; try congruence.
+  - inv Hi. pose proof (cnt_ge f tl j y Hj). lia.
+  - inv Hj. pose proof (cnt_ge f tl i x Hi). lia.
+  - assert (i <> j) by congruence. specialize (IH i j H Hi Hj). lia.
+Qed.
+
+Definition eqn (a b : nat) : nat := if Nat.eqb a b then 1 else 0.
+
+(* ------------------------------------------------------------------ case analysis *)
 
 Ltac break_hyp H :=
   match type of H with
@@ -123,4 +245,57 @@ Ltac unfold_step H := unfold step, run_pc, guard, decide, do_reply in H.
 
 (* one goal per successful branch of a step; the post-state and events are substituted *)
 Ltac step_cases H :=
-  unfold_step H; break_all H; try (inv H).
+  unfold_step H; cbn [fxA fxB fxC c_fix c_maxq c_ngpus fixes_on fixes_off] in H; break_all H; try (inv H).
+
+(* ------------------------------------------------------------------ tick *)
+
+Lemma tick_runners s d : runners (tick s d) = fst (fire (runners s) 0 (now s + d)%Z).
+Proof. unfold tick. destruct (fire (runners s) 0 (now s + d)%Z); reflexivity. Qed.
+
+Lemma tick_thr s d : thr (tick s d) = map (wake (now s + d)%Z) (thr s) ++ snd (fire (runners s) 0 (now s + d)%Z).
+Proof. unfold tick. destruct (fire (runners s) 0 (now s + d)%Z); reflexivity. Qed.
+
+Lemma tick_reqs s d : reqs (tick s d) = reqs s.
+Proof. unfold tick. destruct (fire (runners s) 0 (now s + d)%Z); reflexivity. Qed.
+
+Lemma tick_pendq s d : pendq (tick s d) = pendq s.
+Proof. unfold tick. destruct (fire (runners s) 0 (now s + d)%Z); reflexivity. Qed.
+
+
+Lemma tick_lmu s d : lmu (tick s d) = lmu s.
+Proof. unfold tick. destruct (fire (runners s) 0 (now s + d)%Z); reflexivity. Qed.
+
+Lemma tick_loaded s d : loaded (tick s d) = loaded s.
+Proof. unfold tick. destruct (fire (runners s) 0 (now s + d)%Z); reflexivity. Qed.
+
+Lemma tick_maxr s d : maxr (tick s d) = maxr s.
+Proof. unfold tick. destruct (fire (runners s) 0 (now s + d)%Z); reflexivity. Qed.
+
+
+(* ------------------------------------------------------------------ arithmetic case splits, sums *)
+
+Ltac eqb_cases :=
+  unfold eqn in *;
+  repeat match goal with
+  | H : context [Nat.eqb ?a ?b] |- _ => let E := fresh "Q" in destruct (Nat.eqb a b) eqn:E; [apply Nat.eqb_eq in E | apply Nat.eqb_neq in E]; try subst
+  | |- context [Nat.eqb ?a ?b] => let E := fresh "Q" in destruct (Nat.eqb a b) eqn:E; [apply Nat.eqb_eq in E | apply Nat.eqb_neq in E]; try subst
+  | H : context [Nat.ltb ?a ?b] |- _ => let E := fresh "Q" in destruct (Nat.ltb a b) eqn:E; [apply Nat.ltb_lt in E | apply Nat.ltb_ge in E]
+  | |- context [Nat.ltb ?a ?b] => let E := fresh "Q" in destruct (Nat.ltb a b) eqn:E; [apply Nat.ltb_lt in E | apply Nat.ltb_ge in E]
+  end.
+
+Ltac use_nth :=
+  unfold getd in *;
+  repeat match goal with
+  | E : nth_error ?l ?i = Some _, H : context [nth_error ?l ?i] |- _ => lazymatch H with E => fail | _ => rewrite E in H end
+  | E : nth_error ?l ?i = Some _ |- context [nth_error ?l ?i] => rewrite E
+  end.
+
+(* rewrite the sums over the updated thread list / queue / request list in terms of the old ones *)
+Ltac sums Ep :=
+  repeat first
+    [ rewrite cnt_snoc
+    | rewrite app_length
+    | rewrite upd_length
+    | erewrite cnt_upd_eq by (first [exact Ep | apply nth_error_snoc_old; exact Ep])
+    | erewrite getd_upd by eassumption
+    | rewrite getd_snoc ].
